@@ -1,7 +1,7 @@
 from _warnings import warn
 from typing import Sequence
 from numpy import ndarray, array, sort, zeros, take_along_axis, expand_dims
-from numpy import int64, uint64
+from numpy import int64, uint64, float64
 
 
 def sample_hdi(sample: ndarray, fraction: float) -> ndarray:
@@ -52,6 +52,9 @@ def sample_hdi(sample: ndarray, fraction: float) -> ndarray:
     # these would wrap around, and booleans cannot be subtracted at all
     if s.dtype.kind in "iub" and s.dtype.itemsize < 8:
         s = s.astype(int64)
+    # in a half- or single-precision type they would overflow / be rounded
+    elif s.dtype.kind == "f" and s.dtype.itemsize < 8:
+        s = s.astype(float64)
 
     if s.ndim > 2 or s.ndim == 0:
         raise ValueError(
